@@ -675,6 +675,7 @@ func (fc *FnCtx) evalIndex(st *State, x *ast.IndexExpr) Val {
 		return VInt{r}
 	case VSlice:
 		i := asInt(fc.eval(st, x.Index))
+		fc.onIndex(st, x, i)
 		fc.boundsAssert(st, "index", inRange(i, mkInt(0), b.Len), x)
 		return fc.readElem(st, b, i)
 	case VStruct: // array
@@ -924,6 +925,7 @@ func (fc *FnCtx) lvalue(st *State, e ast.Expr) loc {
 				return loc{kind: 3, typ: fc.typeOf(e)}
 			}
 			i := asInt(fc.eval(st, x.Index))
+			fc.onIndex(st, x, i)
 			fc.boundsAssert(st, "index", inRange(i, mkInt(0), s.Len), x)
 			return loc{kind: 2, slice: s, idx: i, typ: u.Elem()}
 		case *types.Array:
@@ -1097,6 +1099,7 @@ func (fc *FnCtx) addressOf(st *State, e ast.Expr) Val {
 		if _, ok := fc.typeOf(x.X).Underlying().(*types.Slice); ok {
 			s := fc.eval(st, x.X).(VSlice)
 			i := asInt(fc.eval(st, x.Index))
+			fc.onIndex(st, x, i)
 			fc.boundsAssert(st, "index", inRange(i, mkInt(0), s.Len), x)
 			return VElemPtr{s, i}
 		}
